@@ -100,4 +100,18 @@ CLAIMS['C04'] = {
     'note': _NOTE,
 }
 
+CLAIMS['C05'] = {
+    'text': 'Scope failure content: the wrapper classifies each exception class arriving from '
+            'the payload (failed=True iff neither CancelTask nor GeneratorExit, the caught '
+            'object stored); writers/readers of the failure list; _collect_exceptions as an '
+            'in-order filter with promoted failures returned alone and Concurrent(*filtered); '
+            'either-or decided by truth-inlining __aexit__ -> _propagate_exceptions -> '
+            '_is_suppressed per receiver and per class of pending exception (foreign '
+            'exceptions never swallowed nor replaced by Concurrent, own signal absorbed or '
+            'replaced); promptness chain failed child -> __cancel__ -> undated own signal; '
+            'SUPPRESS/PROMOTE tables. Identity and order of failures as run-time values follow '
+            'only together with the loop FIFO (C02) and are not decided here.',
+    'note': _NOTE,
+}
+
 NOT_APPLICABLE = {}
